@@ -1748,3 +1748,40 @@ Proof.
   - intros [= <-]. exists sc. split; [now left | exact E].
   - intros H. destruct (IH H) as (sc' & Hin & Hr). exists sc'. split; [now right | exact Hr].
 Qed.
+
+(* a broken connection (BadReply / ConnectionLost, timeout, socket error) is reported as a transient
+   failure of the request being worked on, whatever replies were seen before on the connection *)
+Lemma r_disconnect_results sc s : results (snd (r_disconnect sc s)) = results s.
+Proof.
+  unfold r_disconnect, mcatch, c_quit, mbind. rewrite cmd_eq. cbn. unfold flush_pipeline. cbn.
+  destruct (flush_go sc (pend s ++ [Quit]) (filled s)) as [[r p'] f']. destruct r as [e|]; reflexivity.
+Qed.
+
+Theorem smtp_hangup_transient sc cfg msgs e s i :
+  msgs <> [] ->
+  (r_connect cfg ;;; r_handshake sc cfg ;;; run_loop sc cfg msgs 0) st0 = (inr e, s) ->
+  (e = ASmtp \/ e = ATimeout \/ e = ASock) ->
+  lookup_res (results s) (cur s) = None ->
+  smtp_final sc cfg msgs (cur s) i = FTransient.
+Proof.
+  intros Hne Hrun He Hunset. unfold smtp_final, run_client.
+  destruct msgs as [|m0 ms]; [congruence|]. cbv beta iota. rewrite Hrun.
+  assert (Hres : results (snd (run_arms e s)) = (cur s, MExc Trans) :: results s).
+  { destruct He as [->|[->| ->]]; cbn [run_arms]; unfold set_if_unset, mbind, mget, ready; cbn;
+      rewrite Hunset; reflexivity. }
+  assert (Hfin : final_of (lookup_res ((cur s, MExc Trans) :: results s) (cur s)) i = FTransient).
+  { cbn. rewrite N.eqb_refl. reflexivity. }
+  destruct (c_conn cfg); [rewrite r_disconnect_results|..]; rewrite Hres; exact Hfin.
+Qed.
+
+Example smtp_hangup_example :
+  let sc := mkScript (fun s => match s with Ehlo => R500 | Rcpt 0 0 => R5 | Data 0 => Disconnect | _ => sc_default s end)
+                     no_exts no_exts in
+  let msgs := [mkMsg true [true; true] false] in
+  (exists s, (r_connect cfg_plain ;;; r_handshake sc cfg_plain ;;; run_loop sc cfg_plain msgs 0) st0 = (inr ASmtp, s) /\
+             lookup_res (results s) (cur s) = None /\ cur s = 0) /\
+  smtp_final sc cfg_plain msgs 0 1 = FTransient.
+Proof.
+  cbn zeta. split; [|vm_compute; reflexivity].
+  eexists. split; [vm_compute; reflexivity|]. split; vm_compute; reflexivity.
+Qed.
